@@ -135,16 +135,16 @@ PROPS['C08'] = {
 _TB = 'Trusted: gcc 12 + sanitizer runtimes, libutf8proc as NFC/NFKD, the reference model (validated at start-up against vectors from the independent Python spec and the vectors published in tests/tests.c), golden word lists of the pinned commit. '
 MANIFEST_TEXT = {
     'C03': {'technique': 'runtime monitoring: encode output vs executable reference model (ASan/UBSan build)',
-            'text': 'Every polyseed_encode output and stored check value of the run is compared byte-for-byte with an independent model of the published layout; the zero seed, all 164 loadable single-bit seeds and all their pairs are enumerated completely in every language for three coins (a bit-linear packing is determined by them), plus random/boundary seeds and the same seed reached through four different histories. Held-on-what-was-executed, not a proof. The NFC monitor clobbers its output buffer before reading its input (a conforming normaliser may), seeds are also encoded under a different enabled-feature mask, and a clang-built stripe repeats the workload. Every run also draws fresh vectors from the independent Python statement of the format (spec/spec.py) and compares the library with them directly. A last section encodes from 8 threads at once.',
+            'text': 'Every polyseed_encode output and stored check value of the run is compared byte-for-byte with an independent model of the published layout; the zero seed, all 164 loadable single-bit seeds and all their pairs are enumerated completely in every language for three coins (a bit-linear packing is determined by them), plus random/boundary seeds and the same seed reached through four different histories. Held-on-what-was-executed, not a proof. The NFC monitor clobbers its output buffer before reading its input (a conforming normaliser may), seeds are also encoded under a different enabled-feature mask, and a clang-built stripe repeats the workload. Every run also draws fresh vectors from the independent Python statement of the format (spec/spec.py) and compares the library with them directly. A last section encodes from 8 threads at once. A stripe runs on a library built with -fexec-charset=CP932 (a narrow execution character set other than UTF-8).',
             'note': _TB + 'Exhaustive only for the single-bit/pair sub-space.'},
     'C07': {'technique': 'runtime monitoring: exhaustive language x index x position sweep through the API vs golden lists (ASan/UBSan; assertion-enabled build in thorough)',
-            'text': 'All 10 x 2048 x 16 (language, index, position) combinations are driven through polyseed_encode (harvesting the words the library emits) and through both decoders, and compared with the frozen lists; pairwise uniqueness clauses are evaluated on the harvested words and through the API. The finite space named by the property is enumerated completely; the claim is limited to the executions produced. A clang-built stripe (1/10 of the sweep) repeats both directions. A first section runs in forked children of a process that has not looked up any word yet: the first decode that touches a language happens while the allocator refuses its 1st/2nd/3rd request, and afterwards all 2048 words of that list and of two others must still decode.',
+            'text': 'All 10 x 2048 x 16 (language, index, position) combinations are driven through polyseed_encode (harvesting the words the library emits) and through both decoders, and compared with the frozen lists; pairwise uniqueness clauses are evaluated on the harvested words and through the API. The finite space named by the property is enumerated completely; the claim is limited to the executions produced. A clang-built stripe (1/10 of the sweep) repeats both directions. A first section runs in forked children of a process that has not looked up any word yet: the first decode that touches a language happens while the allocator refuses its 1st/2nd/3rd request, and afterwards all 2048 words of that list and of two others must still decode. A stripe runs on a library built with -fexec-charset=CP932.',
             'note': _TB + '"As published" means equal to golden/*.txt extracted from the pinned commit (BIP-39 cannot be fetched offline). The clause "no word is a prefix of another" is checked operationally (DESIGN.md C07).'},
     'C08': {'technique': 'runtime monitoring: decode_explicit on enumerated token variants vs reference matcher (ASan/UBSan)',
-            'text': 'For every word (all of es/fr/en on every run, every language in thorough) every prefix length x accent subset x NFC/NFD form and nine boundary classes are embedded in valid phrases and decoded by the real library; acceptance, status and seed must equal the model matcher. Plus random phrases with an independent variant at each position. Further classes: code points at the edges of the accent block (U+02FF, U+0370..U+0380, ...) and tokens of 250-300 letters that start like a word (no letter counter may wrap). A quarter of the variant phrases also go through polyseed_decode (auto-detection), half of them right after a successful restore in the same language, and are compared with the model\'s auto-detection pipeline. A coverage-guided libFuzzer target (clang, ASan+UBSan) mutates phrases and compares both decoders with the reference pipeline on every input (definite model predictions only).',
+            'text': 'For every word (all of es/fr/en on every run, every language in thorough) every prefix length x accent subset x NFC/NFD form and nine boundary classes are embedded in valid phrases and decoded by the real library; acceptance, status and seed must equal the model matcher. Plus random phrases with an independent variant at each position. Further classes: code points at the edges of the accent block (U+02FF, U+0370..U+0380, ...) and tokens of 250-300 letters that start like a word (no letter counter may wrap). A quarter of the variant phrases also go through polyseed_decode (auto-detection), half of them right after a successful restore in the same language, and are compared with the model\'s auto-detection pipeline. A coverage-guided libFuzzer target (clang, ASan+UBSan) mutates phrases and compares both decoders with the reference pipeline on every input (definite model predictions only). A stripe runs on a library built with -funsigned-char.',
             'note': _TB + 'Tokens with combining marks outside U+0300-U+036F in es/fr are treated as unspecified (not judged).'},
     'C16': {'technique': 'runtime monitoring: dead-stack scan on driver-owned thread stacks + inspection of blocks at the injected free, 6 optimisation levels/compilers, with positive control',
-            'text': 'Each API function x exit path x language runs on a pre-patterned stack owned by the driver; afterwards the dead stack is searched for secret/password/mask windows, phrase tokens and word-index runs, and every block reaching the injected free must be zero and covered by a logged injected-memzero call. A log-only memzero control run must find residue, otherwise the check is inconclusive (exit 2). The same needles are searched in the static storage of the program and in the thread-local/descriptor area of the monitored thread after it has exited.',
+            'text': 'Each API function x exit path x language runs on a pre-patterned stack owned by the driver; afterwards the dead stack is searched for secret/password/mask windows, phrase tokens and word-index runs, and every block reaching the injected free must be zero and covered by a logged injected-memzero call. A log-only memzero control run must find residue, otherwise the check is inconclusive (exit 2). The same needles are searched in the static storage of the program and in the thread-local/descriptor area of the monitored thread after it has exited. A further exit path feeds a valid phrase followed by blanks or short tokens up to and beyond the size of the internal buffer.',
             'note': _TB + 'Registers and memory owned by the dependencies are out of scope; observed for gcc -O0..-O3/-Os and clang -O2 on x86-64.'},
     'C17': {'technique': 'runtime monitoring: exact per-language bound from words harvested through the API + extremal witnesses under ASan (also assertion-enabled build)',
             'text': 'The worst-case phrase length of every language (sum of per-position maxima over the admissible words, in internal/decoder/output form) is computed from the words the library itself emits and compared with POLYSEED_STR_SIZE of the header being compiled; extremal witness seeds (the 543-byte Korean phrase is reached) are encoded into an exact-size buffer under ASan and fed back to both decoders. Every fourth witness is encoded while the allocator refuses its next request.',
@@ -164,7 +164,7 @@ PROPS['C01'] = {
     'require': {'concurrent.roundtrips_equal_model': 15000, 'auto.ok': 50000, 'auto.mult_lang': 100, 'ambiguous.constructed': 500, 'roundtrip.how.created': 5000, 'roundtrip.how.crypted': 5000, 'axes.cases': 3000, 'second_generation.ok': 100000, 'roundtrip.decodes_with_failing_allocator': 5000},
 }
 MANIFEST_TEXT['C01'] = {'technique': 'runtime monitoring: encode/decode round trips observed through every seed observer vs reference model (ASan/UBSan, NDEBUG and assertion-enabled builds)',
-    'text': 'Seeds (boundary-biased and random; created, loaded or encrypted) are encoded in every language for boundary and random coins under all 8 enabled-feature masks, compared with the model phrase, and decoded by both decoders; the result is compared through store bytes, birthday, all feature masks, encrypted flag and the full PBKDF2 argument list. Auto-detection must return the same seed and language or MULT_LANG exactly when the model matcher finds a second recognising language; ambiguous phrases are constructed for every overlapping language pair. Every coin, birthday and feature value is visited at least once. A clang-built stripe of the same workload guards against compiler-dependent behaviour. Every decoded seed is encoded again (same and another language, same and another coin) and that second-generation phrase must equal the model\'s and decode again. A last section repeats round trips from 8 threads at once (yields inside the dependency callbacks).',
+    'text': 'Seeds (boundary-biased and random; created, loaded or encrypted) are encoded in every language for boundary and random coins under all 8 enabled-feature masks, compared with the model phrase, and decoded by both decoders; the result is compared through store bytes, birthday, all feature masks, encrypted flag and the full PBKDF2 argument list. Auto-detection must return the same seed and language or MULT_LANG exactly when the model matcher finds a second recognising language; ambiguous phrases are constructed for every overlapping language pair. Every coin, birthday and feature value is visited at least once. A clang-built stripe of the same workload guards against compiler-dependent behaviour. Every decoded seed is encoded again (same and another language, same and another coin) and that second-generation phrase must equal the model\'s and decode again. A last section repeats round trips from 8 threads at once (yields inside the dependency callbacks). A sample of the round trips decodes the own phrase with the allocator armed (the only error allowed is MEMORY); a stripe runs on a library built with -funsigned-char.',
     'note': _TB + 'Sampling over 2^150 secrets; no claim beyond the executions produced.'}
 
 PROPS['C02'] = {
@@ -176,7 +176,7 @@ PROPS['C02'] = {
     'require': {'nearwords.detected': 400, 'concurrent.decodes_ok': 50000, 'arith.correct_validates': 30720, 'arith.wrong_rejected': 400000, 'subst.detected': 300000, 'swap.detected': 2000, 'unique.exactly_one': 50, 'load.wrong_check_rejected': 50000, 'decodes.with_failing_allocator': 100000, 'phrases.with_a_respelled_word': 20000},
 }
 MANIFEST_TEXT['C02'] = {'technique': 'runtime monitoring: exhaustive field-element x position sweep and full substitution/swap neighbourhoods through the decoders vs model check value',
-    'text': 'The arithmetic core is driven through polyseed_decode_explicit for every field element at every data position (all 2047 wrong check words per case in thorough, 16 in quick); for random valid phrases of every language all 16x2047 substitutions and all 120 swaps must give exactly ERR_CHECKSUM; for random data words exactly one of the 2048 check words validates and equals the model value; stored seeds with each wrong check value must not load. A quarter of the corrupted phrases are decoded while the allocator refuses its next request (CHECKSUM must still be the answer, and OK must come with a seed), and an eighth of the substituted words are typed in another permitted spelling (redundant accents, 4-6 letter abbreviation).',
+    'text': 'The arithmetic core is driven through polyseed_decode_explicit for every field element at every data position (all 2047 wrong check words per case in thorough, 16 in quick); for random valid phrases of every language all 16x2047 substitutions and all 120 swaps must give exactly ERR_CHECKSUM; for random data words exactly one of the 2048 check words validates and equals the model value; stored seeds with each wrong check value must not load. A quarter of the corrupted phrases are decoded while the allocator refuses its next request (CHECKSUM must still be the answer, and OK must come with a seed), and an eighth of the substituted words are typed in another permitted spelling (redundant accents, 4-6 letter abbreviation). A near-words section substitutes every pair of list words of which one is the beginning of the other, in both directions; a last section decodes valid and corrupted phrases from 8 threads at once.',
     'note': _TB + 'The exhaustive part covers the single-coefficient vectors; general vectors are sampled (linearity of the code is not assumed by the check).'}
 
 PROPS['C05'] = {
@@ -188,7 +188,7 @@ PROPS['C05'] = {
     'require': {'concurrent.rows_ok': 50000, 'rows.after_a_second_injection': 50, 'rows.own_coin_ok': 300, 'pairs.rejected_with_checksum': 600000, 'token_diffs.compared': 3000, 'allcoins.own_coin_ok': 20480, 'pairs.failing_allocator_ok': 1500},
 }
 MANIFEST_TEXT['C05'] = {'technique': 'runtime monitoring: full 2047-coin rows through encode/decode_explicit (+ auto-detect sample) with token-wise phrase diff',
-    'text': 'For every language, sampled seeds and 16 coins A (boundary + random) the phrase produced by the library for A is decoded with A (must return the same seed) and with each of the 2047 other coins (must be exactly ERR_CHECKSUM); phrases for different coins must differ in the second token only. Thorough enumerates all 2048x2047 ordered pairs for two English seeds and 256 A-rows for a seed in every other language. A third section uses every coin 0..2047 as own coin once per language (the second word runs through the whole list), and wrong/right coins are also decoded with the allocator armed to fail (CHECKSUM must still win).',
+    'text': 'For every language, sampled seeds and 16 coins A (boundary + random) the phrase produced by the library for A is decoded with A (must return the same seed) and with each of the 2047 other coins (must be exactly ERR_CHECKSUM); phrases for different coins must differ in the second token only. Thorough enumerates all 2048x2047 ordered pairs for two English seeds and 256 A-rows for a seed in every other language. A third section uses every coin 0..2047 as own coin once per language (the second word runs through the whole list), and wrong/right coins are also decoded with the allocator armed to fail (CHECKSUM must still win). A third of the rows run after a second injection of the same dependency table, and a last section checks the binding from 8 threads at once.',
     'note': _TB + 'Seeds are sampled; per seed the coin space is enumerated completely.'}
 
 PROPS['C04'] = {
@@ -212,7 +212,7 @@ PROPS['C06'] = {
                 'load.bytes8-9.recomputed-check.ERR_FORMAT': 1000, 'load.bytes30-31.ERR_CHECKSUM': 1000, 'load.random-with-framing+recomputed-check.OK': 100},
 }
 MANIFEST_TEXT['C06'] = {'technique': 'runtime monitoring: store/load on exact-size heap buffers vs model image codec; exhaustive field sweeps around valid images (ASan/UBSan) + ledger',
-    'text': 'polyseed_store output is compared with the model image for seeds from load and create; polyseed_load is judged against the model load_spec (first applicable of FORMAT, CHECKSUM, UNSUPPORTED) on exhaustive sweeps of bytes 8-9 (with stale and with recomputed check value), every header byte, byte 28, byte 29 and bytes 30-31 around sampled valid images under rotating feature masks, on multi-bit mutations and on random buffers with and without valid framing; every accepted buffer must be reproduced by store, and the allocator ledger must show no block left after a failed load. A last section loads and stores from 8 threads at once (yields inside the allocator callback).',
+    'text': 'polyseed_store output is compared with the model image for seeds from load and create; polyseed_load is judged against the model load_spec (first applicable of FORMAT, CHECKSUM, UNSUPPORTED) on exhaustive sweeps of bytes 8-9 (with stale and with recomputed check value), every header byte, byte 28, byte 29 and bytes 30-31 around sampled valid images under rotating feature masks, on multi-bit mutations and on random buffers with and without valid framing; every accepted buffer must be reproduced by store, and the allocator ledger must show no block left after a failed load. A last section loads and stores from 8 threads at once (yields inside the allocator callback). Half of the enabling calls carry arbitrary high argument bits, and seeds created at out-of-range clocks must store the model image and load again.',
     'note': _TB + '2^256 buffers are sampled; the non-secret fields are enumerated completely around each sampled image. Platform independence is observed on x86-64 only.'}
 
 PROPS['C10'] = {
@@ -225,7 +225,7 @@ PROPS['C10'] = {
                 'cell.decode_explicit.ERR_UNSUPPORTED': 1000, 'cell.create.ERR_UNSUPPORTED': 500, 'cell.create.OK': 500, 'getters.checked': 5000, 'history.creates_ok': 5000, 'cell.create.ERR_UNSUPPORTED(allocator failing)': 500},
 }
 MANIFEST_TEXT['C10'] = {'technique': 'runtime monitoring: exhaustive argument x feature-value x entry-point matrix through the API vs model (ASan/UBSan)',
-    'text': 'Every enabling argument (0..7 and arguments with high bits) x every 5-bit feature value x {create, decode, decode_explicit, load}, directly and after random prior enabling calls, over sampled seeds/languages/coins: status must be UNSUPPORTED exactly when a bit outside the enabled user bits and the encrypted bit is set; enable_features must return popcount(arg&7); getters must return value&q&7; features must survive phrase, storage and crypt round trips; the default mask is observed in fresh processes. Dependencies are re-injected between the enabling call and the use in half of the cells (injection must not touch the mask), and the matrix also runs on the assertion-enabled build. Creation of a seed with a feature that is not enabled is also tried while the allocator refuses its next request: the answer must still be UNSUPPORTED.',
+    'text': 'Every enabling argument (0..7 and arguments with high bits) x every 5-bit feature value x {create, decode, decode_explicit, load}, directly and after random prior enabling calls, over sampled seeds/languages/coins: status must be UNSUPPORTED exactly when a bit outside the enabled user bits and the encrypted bit is set; enable_features must return popcount(arg&7); getters must return value&q&7; features must survive phrase, storage and crypt round trips; the default mask is observed in fresh processes. Dependencies are re-injected between the enabling call and the use in half of the cells (injection must not touch the mask), and the matrix also runs on the assertion-enabled build. Creation of a seed with a feature that is not enabled is also tried while the allocator refuses its next request: the answer must still be UNSUPPORTED. Queries and storage are re-checked after the enabled mask has changed under a live seed; a threads section has the main thread enable a mask and 8 threads started afterwards run all four entry points on every feature value.',
     'note': _TB + 'The matrix is enumerated completely; seeds, languages and coins inside each cell are sampled.'}
 
 PROPS['C11'] = {
@@ -251,7 +251,7 @@ PROPS['C12'] = {
                 'equivalent_spellings.agree(forms really differ)': 1500, 'crypt.password.empty': 500, 'crypt.password.hangul': 500, 'crypt.with_failing_allocator': 5000},
 }
 MANIFEST_TEXT['C12'] = {'technique': 'runtime monitoring: PBKDF2 monitor with scripted masks + model of the password operation, observed through every seed observer and round trips (ASan/UBSan)',
-    'text': 'Seeds x a password alphabet (empty, ASCII, accented NFC/NFD, Hangul, kana with dakuten, fullwidth, ligatures, random Unicode, long) x KDF masks (all-00, all-FF, only the two dropped bits, only byte 18, single bits, only ignored bytes, random, or an argument-mixing stand-in) x up to 7 applications: after each application the monitor must have seen exactly (NFKD(password), length, salt, 16, 10000, 32) and the seed must equal the model in store bytes (incl. recomputed check value), getters and KDF inputs, and must survive store/load and encode/decode; the same password twice must restore the seed bit for bit; NFC/NFD spellings must give identical results. A quarter of the applications run while the allocator refuses its next request (the operation cannot report failure, so the result must not change); a MemorySanitizer-built stripe and a section with 8 concurrent threads repeat the workload.',
+    'text': 'Seeds x a password alphabet (empty, ASCII, accented NFC/NFD, Hangul, kana with dakuten, fullwidth, ligatures, random Unicode, long) x KDF masks (all-00, all-FF, only the two dropped bits, only byte 18, single bits, only ignored bytes, random, or an argument-mixing stand-in) x up to 7 applications: after each application the monitor must have seen exactly (NFKD(password), length, salt, 16, 10000, 32) and the seed must equal the model in store bytes (incl. recomputed check value), getters and KDF inputs, and must survive store/load and encode/decode; the same password twice must restore the seed bit for bit; NFC/NFD spellings must give identical results. A quarter of the applications run while the allocator refuses its next request (the operation cannot report failure, so the result must not change); a MemorySanitizer-built stripe and a section with 8 concurrent threads repeat the workload. The first section runs before any polyseed_enable_features call of the process (the encrypted bit is supported by default); a stripe runs on a library built with -funsigned-char.',
     'note': _TB + 'Passwords whose NFKD form does not fit the public buffer are outside the domain (C14 covers their safety).'}
 
 PROPS['C09'] = {
@@ -314,7 +314,7 @@ PROPS['C18'] = {
                 'inject.last_table.time0.alloc0.free0': 100, 'inject.last_table.time1.alloc1.free1': 100, 'inject.old_seed_freed_after_reinjection': 50},
 }
 MANIFEST_TEXT['C18'] = {'technique': 'runtime monitoring: tagged event logs of two distinguishable stub sets + link-time interposed libc counters scoped to library calls (ASan/UBSan; NDEBUG and assertion-enabled builds)',
-    'text': 'polyseed_create is run with scripted random outputs (all 152 single-bit patterns, all-00, all-FF, random) and clocks: exactly 19 bytes must be requested, the stored secret must equal them bit for bit (top two bits dropped), the birthday must come from the injected clock, and no interposed libc entropy/time function may be reached. All 8 NULL/non-NULL combinations of the optional entries are injected after histories of 1-4 earlier tables (every ordered pair of combinations as the last two), the caller\'s struct is overwritten or unmapped after polyseed_inject returns, and every API function is called: all events must carry the last table\'s tag, and libc malloc/free/time must be used inside the library exactly when the entry is NULL. A seed created under the previous table is kept alive across the last injection and must be wiped and released through the new table. A quarter of the creation cases draw two or three seeds in a row from identical random output: each creation must still take exactly its own 19 bytes, once.',
+    'text': 'polyseed_create is run with scripted random outputs (all 152 single-bit patterns, all-00, all-FF, random) and clocks: exactly 19 bytes must be requested, the stored secret must equal them bit for bit (top two bits dropped), the birthday must come from the injected clock, and no interposed libc entropy/time function may be reached. All 8 NULL/non-NULL combinations of the optional entries are injected after histories of 1-4 earlier tables (every ordered pair of combinations as the last two), the caller\'s struct is overwritten or unmapped after polyseed_inject returns, and every API function is called: all events must carry the last table\'s tag, and libc malloc/free/time must be used inside the library exactly when the entry is NULL. A seed created under the previous table is kept alive across the last injection and must be wiped and released through the new table. A quarter of the creation cases draw two or three seeds in a row from identical random output: each creation must still take exactly its own 19 bytes, once. One creation in eight uses a clock value outside the 1024-month range or beyond 2^32 seconds; a stripe runs on a library built with -funsigned-char.',
     'note': _TB + 'Only libc entry points listed in the --wrap set are observed (malloc, free, calloc, realloc, time, clock_gettime, gettimeofday, getrandom, getentropy, rand, random, open, fopen, clock).'}
 
 PROPS['C13'] = {
@@ -334,7 +334,7 @@ PROPS['C13'] = {
                 'ops.enable': 5000, 'ops.free': 5000, 'observations': 100000, 'static_storage.checks': 100000, 'walks.with_address_reusing_allocator': 1500, 'walks.with_libc_malloc_and_injected_free': 300, 'direct.sequences': 2500, 'direct.same_address_two_seeds': 2000, 'ops.non_constructor_with_failing_allocator': 500, 'max.static_storage.ranges_of_library_objects_monitored': 2},
 }
 MANIFEST_TEXT['C13'] = {'technique': 'runtime monitoring: lock-step execution of operation sequences against an executable abstract model (history + model), junk-filling allocator, ASan/UBSan (NDEBUG and assertion-enabled builds)',
-    'text': 'Random walks of 50-200 operations over up to six live seeds (create with arbitrary arguments, load, both decoders on model phrases / other slots\' phrases / grammar strings / wrong coins, crypt, encode, keygen, getters, free, free(NULL), enable_features, re-injection of a second stub set, armed allocation failures) are executed on the library and on the abstract model; every status, output buffer, getter value, key and dependency tag is compared at once and all other live seeds are re-observed (store image, periodically all observers) after every step. All sequences up to length 4 (quick) / 5 (thorough) over a 10-symbol alphabet are enumerated completely. In addition the static and thread-local storage of the library objects (ranges from the link map) is compared around every call: outside polyseed_inject/polyseed_enable_features nothing may change (no hidden state). Walks alternate between a fresh-address and an address-reusing allocator and arm allocation failures before any kind of call; a clang-built stripe repeats the walks. The static-storage rule tolerates a byte that changes once (one-time initialisation) and reports a byte that changes again; the probe also runs inside a sample of the dependency callbacks, where a scratch buffer would be in use. A MemorySanitizer-built stripe (clang; blocks from the injected allocator poisoned, outputs and dependency arguments probed at the boundaries) repeats the walks.',
+    'text': 'Random walks of 50-200 operations over up to six live seeds (create with arbitrary arguments, load, both decoders on model phrases / other slots\' phrases / grammar strings / wrong coins, crypt, encode, keygen, getters, free, free(NULL), enable_features, re-injection of a second stub set, armed allocation failures) are executed on the library and on the abstract model; every status, output buffer, getter value, key and dependency tag is compared at once and all other live seeds are re-observed (store image, periodically all observers) after every step. All sequences up to length 4 (quick) / 5 (thorough) over a 10-symbol alphabet are enumerated completely. In addition the static and thread-local storage of the library objects (ranges from the link map) is compared around every call: outside polyseed_inject/polyseed_enable_features nothing may change (no hidden state). Walks alternate between a fresh-address and an address-reusing allocator and arm allocation failures before any kind of call; a clang-built stripe repeats the walks. The static-storage rule tolerates a byte that changes once (one-time initialisation) and reports a byte that changes again; the probe also runs inside a sample of the dependency callbacks, where a scratch buffer would be in use. A MemorySanitizer-built stripe (clang; blocks from the injected allocator poisoned, outputs and dependency arguments probed at the boundaries) repeats the walks. An endurance section repeats one operation 300 / 1100 / 66 000 times in lock-step with the model (beyond any 8- or 16-bit counter); a stripe runs on a library built with -funsigned-char.',
     'note': _TB + 'Walks are sampled; the short-sequence space is complete for the reduced alphabet only. Re-injection varies the stub set; NULL optional entries are covered by C18.'}
 
 PROPS['C20'] = {
@@ -346,5 +346,5 @@ PROPS['C20'] = {
                 'rounds.8_threads': 4, 'rounds.16_threads': 4, 'rounds.table.all-entries-injected': 2, 'rounds.table.time-NULL(libc-clock)': 2, 'rounds.table.time+alloc+free-NULL(libc)': 2, 'ops.create_with_failing_or_odd_clock': 300, 'ops.decode_with_lang_out_NULL': 3000},
 }
 MANIFEST_TEXT['C20'] = {'technique': 'runtime monitoring: ThreadSanitizer build (library + harness) under multi-threaded scripted workloads with yields injected at the dependency callbacks; serial-vs-concurrent transcript equality',
-    'text': 'After one injection and one feature configuration, 8 and 16 threads execute deterministic scripts of every seed operation on private seeds (all languages), with random sched_yield/spins inside the dependency callbacks (the library\'s own suspension points) and several repetitions with different yield seeds. Any ThreadSanitizer report with a library frame is a violation (deduplicated by entry-point pair); each thread\'s transcript digest must equal that of the same script executed alone. A logical clock (relaxed atomics, so that it adds no synchronisation) measures how many call pairs of different threads really overlapped, per operation pair; a run with too few is inconclusive. Rounds rotate over three dependency tables: all entries injected, libc clock (time NULL), libc clock + malloc + free; libc time() is interposed so that results stay deterministic. Half of the automatic decodes pass lang_out = NULL, and one creation in sixteen sees a failing or odd clock ((time_t)-1, 0, before the epoch, far future).',
+    'text': 'After one injection and one feature configuration, 8 and 16 threads execute deterministic scripts of every seed operation on private seeds (all languages), with random sched_yield/spins inside the dependency callbacks (the library\'s own suspension points) and several repetitions with different yield seeds. Any ThreadSanitizer report with a library frame is a violation (deduplicated by entry-point pair); each thread\'s transcript digest must equal that of the same script executed alone. A logical clock (relaxed atomics, so that it adds no synchronisation) measures how many call pairs of different threads really overlapped, per operation pair; a run with too few is inconclusive. Rounds rotate over three dependency tables: all entries injected, libc clock (time NULL), libc clock + malloc + free; libc time() is interposed so that results stay deterministic. Half of the automatic decodes pass lang_out = NULL, and one creation in sixteen sees a failing or odd clock ((time_t)-1, 0, before the epoch, far future). Every status a worker thread observes is compared with the model (the feature mask configured by the main thread holds on every thread).',
     'note': _TB + 'TSan is happens-before based and sees only the executions produced; the harness records nothing under locks while threads run, so that it adds no happens-before edges of its own.'}
